@@ -56,7 +56,11 @@ RULE = ("exhaustive: every text over {a . space \\n ( )} (and over {B _ tab [ ] 
         "Unicode blanks, wide characters) with boundary-biased cursors and needles cut from the text; documents "
         "with equal text share the line-table cache (share=true) or are re-created per query (share=false); "
         "cache-level cases interleave line/index queries on 1-3 texts through fresh Document objects with garbage "
-        "collection of entries; scan cases run the regex scanners of the model against the compiled regexes of "
+        "collection of entries, where a Document is either constructed from its text or PRODUCED by "
+        "paste_clipboard_data (3 data types x 3 paste modes x counts, data with / without newlines), insert_after / "
+        "insert_before or cut_selection (exhaustive over 4 small texts x every cursor, then random), and after every "
+        "op every live Document must satisfy lines == text.split, line_count, row/col and the index round trips; "
+        "scan cases run the regex scanners of the model against the compiled regexes of "
         "document.py on every string over {a e-acute _ wide combining-acute arabic-digit . space U+2028} up to "
         "length 3 (thorough: 4) plus random strings over 13 symbols up to length 20; a case is non-trivial when "
         "the text is non-empty (cache cases: more than one op; scan cases: a non-empty string)")
@@ -71,6 +75,10 @@ TRUSTED = ["harness/c02.py compares every query result field by field",
            "classes of the compiled regex objects over all code points, the bracket pairs and the boundary alphabet "
            "are regenerated from /repo by harness/gen_c02.py and pinned by kernel-decided theorems "
            "(Ptk.Props.C02Gen: gen_patterns_ok, gen_ok, gen_space_ok, gen_brackets_ok, gen_alphabet_ok)",
+           "the shared line-table cache is written only by the two lazy getters Document.lines / "
+           "Document._line_start_indexes: pinned by gen_cache_writers_ok over the ast-derived set of functions that "
+           "assign _cache.lines / _cache.line_indexes (seedLines_ok / seedLines_wrong_breaks: a producing method may "
+           "seed the cache only with text.split)",
            "harness/gen_c02.py is trusted to print what `re` / `ast` report"]
 ASSUMPTIONS = ["CPython str slicing/split semantics; bisect.bisect_right is the binary search of Lib/bisect.py "
                "(modelled as that loop and proved equal to its specification on the sorted line-start table)",
@@ -79,7 +87,8 @@ ASSUMPTIONS = ["CPython str slicing/split semantics; bisect.bisect_right is the 
                "re.IGNORECASE = ASCII case folding on the generated alphabet (no non-ASCII cased letters)",
                "selection-dependent queries run in Emacs mode (vi_mode() False)"]
 PARTIAL_SCOPE = ["selection_range(s) / selection_range_at_line / cut_selection / paste_clipboard_data / insert_after / "
-                 "insert_before not modelled (C09)",
+                 "insert_before are not modelled (C09); they are driven as document PRODUCERS in the cache sessions "
+                 "(the produced documents and all equal-text documents must keep consistent coordinates)",
                  "custom `pattern=` argument of find_start_of_previous_word / get_word_before_cursor not modelled",
                  "negative cursor positions and count = 0 of the word motions are outside the property (modelled and "
                  "correspondence-checked, no theorem); negative rows of translate_row_col_to_index: proved as the "
@@ -307,23 +316,74 @@ def make_docs(case):
     return lambda c: Document(text, 0 if c is None else c)
 
 
+def produce(recipe):
+    """a Document PRODUCED by a method of document.py (instead of constructed from its text):
+       ["paste", base, cur, data, type, mode, count] | ["after", base, cur, ins] | ["before", base, cur, ins]
+       | ["cut", base, cur, origin, type]"""
+    from prompt_toolkit.clipboard import ClipboardData
+    from prompt_toolkit.selection import PasteMode, SelectionState, SelectionType
+
+    kind = recipe[0]
+    if kind == "paste":
+        _, base, cur, data, typ, mode, count = recipe
+        return Document(base, cur).paste_clipboard_data(ClipboardData(data, SelectionType[typ]),
+                                                        paste_mode=PasteMode[mode], count=count)
+    if kind == "after":
+        return Document(recipe[1], recipe[2]).insert_after(recipe[3])
+    if kind == "before":
+        return Document(recipe[1], recipe[2]).insert_before(recipe[3])
+    if kind == "cut":
+        _, base, cur, origin, typ = recipe
+        return Document(base, cur, SelectionState(origin, SelectionType[typ])).cut_selection()[0]
+    raise ValueError(recipe)
+
+
+def live_problems(x: Document):
+    """the coordinate part of the property on one live Document (whatever filled its shared cache)"""
+    t = x.text
+    lines = t.split("\n")
+    if list(x.lines) != lines:
+        return f"lines {list(x.lines)!r} != text.split"
+    if x.line_count != len(lines):
+        return f"line_count {x.line_count}"
+    c = x.cursor_position
+    if 0 <= c <= len(t):
+        row, col = t[:c].count("\n"), c - (t.rfind("\n", 0, c) + 1)
+        if (x.cursor_position_row, x.cursor_position_col) != (row, col):
+            return f"row/col {(x.cursor_position_row, x.cursor_position_col)} != {(row, col)}"
+    for i in {0, len(t) // 2, len(t)}:
+        r, cc = x.translate_index_to_position(i)
+        if x.translate_row_col_to_index(r, cc) != i or r != t[:i].count("\n"):
+            return f"index {i} -> {(r, cc)} -> {x.translate_row_col_to_index(r, cc)}"
+    return None
+
+
 def run_cache_ops(case):
-    """cache-level case: every query is asked through a NEW Document object; documents with equal
-    text stay alive (and therefore share one `_DocumentCache`) until a "G" op drops them all, which
-    lets the weak dictionary forget the entry.  Returns [(op, answer, shared_ok)]."""
+    """cache-level case: every query is asked through a NEW Document object -- constructed from its
+    text, or PRODUCED by paste_clipboard_data / insert_after / insert_before / cut_selection
+    (case["via"][n] is the recipe of op n) --; documents with equal text stay alive (and therefore
+    share one `_DocumentCache`) until a "G" op drops them all, which lets the weak dictionary forget
+    the entry.  Returns [(op, answer, shared_ok, problem of some live document or None)]."""
     import prompt_toolkit.document as D
 
     live = {}
     out = []
     d = docs = None
+    via = case.get("via") or []
     for n, op in enumerate(case["kops"]):
         k, t = op[0], op[1]
         d = docs = None          # (do not keep the previous Document alive through a local)
         if k == "G":
             live.pop(t, None)
-            out.append((op, None, t not in D._text_to_document_cache))
+            out.append((op, None, t not in D._text_to_document_cache, None))
             continue
-        d = Document(t, (n * 7) % (len(t) + 1))
+        recipe = via[n] if n < len(via) else None
+        if recipe is not None:
+            d = produce(recipe)
+            if d.text != t:
+                raise AssertionError(f"recipe {recipe} produces {d.text!r}, case says {t!r}")
+        else:
+            d = Document(t, (n * 7) % (len(t) + 1))
         docs = live.setdefault(t, [])
         shared = all(x._cache is d._cache for x in docs) and D._text_to_document_cache.get(t) is d._cache
         docs.append(d)
@@ -337,14 +397,25 @@ def run_cache_ops(case):
             a = d.translate_row_col_to_index(op[2], op[3])
         else:
             raise ValueError(op)
-        out.append((op, a, shared))
+        out.append((op, a, shared, _first_live_problem(live)))
     return out
+
+
+def _first_live_problem(live):
+    # (a function of its own: no reference to a Document may survive in the caller's locals,
+    #  otherwise a later "G" cannot release the cache entry)
+    for tt, xs in live.items():
+        for x in xs:
+            pr = live_problems(x)
+            if pr:
+                return f"live Document({tt!r}, {x.cursor_position}): {pr}"
+    return None
 
 
 def impl_lines(case):
     if case.get("kind") == "cache":
         parts = []
-        for op, a, _ in run_cache_ops(case):
+        for op, a, _, _ in run_cache_ops(case):
             k = op[0]
             if k == "G":
                 parts.append("G")
@@ -887,9 +958,12 @@ def oracle_cache(case):
             seen.add(sig)
             v.append({"signature": sig, "msg": msg})
 
-    for op, a, shared in run_cache_ops(case):
+    for op, a, shared, prob in run_cache_ops(case):
         k, t = op[0], op[1]
         lines = t.split("\n")
+        if prob:
+            bad("Document._cache", "live document disagrees with its text",
+                f"after op {op} (via {(case.get('via') or [None])[:12]}): {prob}")
         starts = [sum(len(l) + 1 for l in lines[:j]) for j in range(len(lines))]
         if not shared:
             bad("Document._cache", "not shared / not released",
@@ -1093,22 +1167,79 @@ def cases(tier, rng):
     yield from scan_cases(tier, rng)
 
 
+def rand_recipe(rng):
+    base = rand_text(rng, rng.choice([0, 1, 3, 6, 12]))
+    cur = rng.randrange(0, len(base) + 1)
+    kind = rng.choice(["paste", "paste", "paste", "after", "before", "cut"])
+    if kind == "paste":
+        data = rng.choice(["x", "x\ny", "ab\ncd\n", "\n", "", "p q"]) if rng.random() < 0.6 else rand_text(rng, rng.choice([1, 3, 5]))
+        return ["paste", base, cur, data, rng.choice(["CHARACTERS", "LINES", "LINES", "BLOCK"]),
+                rng.choice(["EMACS", "VI_AFTER", "VI_BEFORE"]), rng.choice([1, 1, 2, 3])]
+    if kind in ("after", "before"):
+        return [kind, base, cur, rand_text(rng, rng.choice([0, 1, 3]))]
+    return ["cut", base, cur, rng.randrange(0, len(base) + 1), rng.choice(["CHARACTERS", "LINES", "BLOCK"])]
+
+
+def session_ops(rng, t, nops):
+    nl = t.count("\n") + 1
+    ops = []
+    for _ in range(nops):
+        k = rng.choice("LLSSIIRR")
+        if k == "I":
+            ops.append(["I", t, rng.randrange(0, len(t) + 2)])
+        elif k == "R":
+            ops.append(["R", t, rng.randrange(-1, nl + 1), rng.randrange(-1, len(t) + 2)])
+        else:
+            ops.append([k, t])
+    return ops
+
+
+def produced_exhaustive():
+    """small scope: every paste (3 data types x 3 modes x counts 1,2 x data with / without newline)
+    into small texts at every cursor, insert_after / insert_before, cut of every selection; the
+    produced document is queried first (empty cache), then plain documents of the same text"""
+    recipes = []
+    for base in ["", "a", "a\nb", "ab\n"]:
+        for cur in range(len(base) + 1):
+            for data in ["x", "x\ny", "\n"]:
+                for typ in ("CHARACTERS", "LINES", "BLOCK"):
+                    for mode in ("EMACS", "VI_AFTER", "VI_BEFORE"):
+                        for count in (1, 2):
+                            recipes.append(["paste", base, cur, data, typ, mode, count])
+            for ins in ["", "x", "\ny"]:
+                recipes.append(["after", base, cur, ins])
+                recipes.append(["before", base, cur, ins])
+            for origin in range(len(base) + 1):
+                for typ in ("CHARACTERS", "LINES", "BLOCK"):
+                    recipes.append(["cut", base, cur, origin, typ])
+    for r in recipes:
+        t = produce(r).text
+        n = len(t)
+        ops = [["L", t], ["S", t], ["I", t, n], ["R", t, t.count("\n"), 1], ["G", t], ["S", t], ["L", t], ["I", t, n // 2]]
+        via = [r, None, None, None, None, None, r, None]
+        yield {"kind": "cache", "text": t, "curs": [], "qs": [], "kops": ops, "via": via}
+
+
 def cache_cases(tier, rng):
+    yield from produced_exhaustive()
     n = 400 if tier == "quick" else 6000
     for _ in range(n):
-        pool = [rand_text(rng, rng.choice([0, 1, 3, 6, 12])) for _ in range(rng.choice([1, 2, 3]))]
-        ops = []
+        pool = [(rand_text(rng, rng.choice([0, 1, 3, 6, 12])), None) for _ in range(rng.choice([1, 2, 3]))]
+        if rng.random() < 0.6:
+            for _ in range(rng.choice([1, 2])):
+                r = rand_recipe(rng)
+                pool.append((produce(r).text, r))
+        ops, via = [], []
         for _ in range(rng.randrange(3, 14)):
-            t = rng.choice(pool)
-            nl = t.count("\n") + 1
-            k = rng.choice("LLSSIIRRG")
-            if k == "I":
-                ops.append(["I", t, rng.randrange(0, len(t) + 2)])
-            elif k == "R":
-                ops.append(["R", t, rng.randrange(-1, nl + 1), rng.randrange(-1, len(t) + 2)])
-            else:
-                ops.append([k, t])
-        yield {"kind": "cache", "text": pool[0], "curs": [], "qs": [], "kops": ops}
+            t, r = rng.choice(pool)
+            if rng.random() < 0.12:
+                ops.append(["G", t])
+                via.append(None)
+                continue
+            ops += session_ops(rng, t, 1)
+            # a text that has a recipe is reached through the producing method or by plain construction
+            via.append(r if (r is not None and rng.random() < 0.5) else None)
+        yield {"kind": "cache", "text": pool[0][0], "curs": [], "qs": [], "kops": ops, "via": via}
 
 
 def sample_view(case):
